@@ -14,6 +14,10 @@ class WireJudge(Judge):
         super().__init__(params)
         self.prop = params['prop']
         self.ctxs = {}
+        # the subtype R of nsa is WRITTEN `L`, like the struct L of nsb that its field r1 holds: two classes of one name
+        # in one value (Stone requires a name to be unique within its namespace only)
+        import stonegen
+        stonegen.WRITTEN = {'R': 'L'}
         from stone.backends.python_rsrc import stone_serializers as ss
         from stone.backends.python_rsrc import stone_validators as bv
         self.ss = ss
